@@ -415,7 +415,8 @@ def get_first_body_node_loc(body):
     # a decorated def (async too) or class starts at its first decorator, not at its keyword
     decorators = getattr(body[0], 'decorator_list', None)
     if decorators:
-        return decorators[0].lineno, body[0].col_offset
+        # a parenthesised decorator expression may start on a later line than its @, left of the keyword
+        return decorators[0].lineno, min(decorators[0].col_offset, body[0].col_offset)
 
     for n in body:
         if n.col_offset >= 0:
